@@ -730,8 +730,22 @@ func runC04Grammar(c *Ctx) {
 		construct := "(*ExprParser).Parse|whole input"
 		okShape := true
 		nNT := 0
+		// only edges from which an accepting return is still reachable matter
+		live := map[int]bool{}
+		for n := range start.accepts {
+			live[n] = true
+		}
+		for changed := true; changed; {
+			changed = false
+			for _, e := range start.edges {
+				if live[e.to] && !live[e.from] {
+					live[e.from] = true
+					changed = true
+				}
+			}
+		}
 		for _, e := range start.edges {
-			if e.eps {
+			if e.eps || !live[e.to] {
 				continue
 			}
 			if e.s.term || e.s.nt != "parseLogicalOr" {
